@@ -18,7 +18,7 @@ pub(crate) fn any_class() -> Class {
 }
 
 /// tree state after `Tree::steal`: the class reported for the allocation is the new entry's class
-// @h props=C13 tier=quick geom=4 panics=C09 mem=C18
+// @h props=C13,C09 tier=quick geom=4 panics=C09 mem=C18
 #[kani::proof]
 fn c13_tree_steal_class() {
     let e = any_tree();
@@ -50,7 +50,7 @@ fn c13_tree_steal_class() {
     }
 }
 
-// @h props=C13 tier=quick geom=4 panics=C09 mem=C18
+// @h props=C13,C09 tier=quick geom=4 panics=C09 mem=C18
 #[kani::proof]
 fn c13_tree_reserve_or_steal_class() {
     let e = any_tree();
@@ -84,7 +84,7 @@ fn c13_tree_reserve_or_steal_class() {
 
 /// `Tree::put` and `Tree::unreserve_add` with the repository's policies never overflow the counter
 /// when the caller returns frames that were taken from this tree (free + returned <= TREE_FRAMES).
-// @h props=C04 tier=quick geom=4 panics=C09 mem=C18
+// @h props=C04,C09 tier=quick geom=4 panics=C09 mem=C18
 #[kani::proof]
 fn c04_tree_put_unreserve() {
     let e = any_tree();
@@ -130,7 +130,7 @@ fn c11_tree_sync_steal() {
 }
 
 /// `Tree::change` (C15)
-// @h props=C15 tier=quick geom=4 panics=C09 mem=C18
+// @h props=C15,C09 tier=quick geom=4 panics=C09 mem=C18
 #[kani::proof]
 fn c15_tree_change() {
     let e = any_tree();
